@@ -347,6 +347,15 @@ def part_setupsave(ctx, work, events, meta):
                 # reads the parameter file as it is THEN
                 import warnings
                 from pygyro.initialisation.setups import setupFromFile
+                # (a parameter file that does not give the grid sizes back would make the restart set-up build a grid of the DEFAULT
+                # sizes, 256 x 512 x 32 x 128: reported as what it is instead of being waited for)
+                pre = const_values(get_constants(os.path.join(fold, "initParams.json")))
+                if list(pre.get("npts", [])) != list(const_values(c_old)["npts"]):
+                    want0 = const_values(c_old)
+                    events.append({"k": "const", "ok": True, "same": False})
+                    meta.append({"part": "constants", "source": "setupSave into " + case, "order": "parameter file written by setupSave",
+                                 "diff": [k for k in want0 if want0[k] != pre.get(k)]})
+                    continue
                 with warnings.catch_warnings():
                     warnings.simplefilter("ignore")
                     _, c1, _ = setupFromFile(fold, dt=c_old.dt * 2, allocateSaveMemory=False, layout="v_parallel")
@@ -358,7 +367,7 @@ def part_setupsave(ctx, work, events, meta):
                     events.append({"k": "const", "ok": True, "same": not diff})
                     meta.append({"part": "constants", "source": tag, "order": "setupFromFile", "diff": diff})
             ret = setupSave(c_new, fold)
-            if case.endswith("parameter file"):
+            if case.endswith("parameter file") and list(const_values(get_constants(os.path.join(ret, "initParams.json"))).get("npts", [])) == list(const_values(c_new)["npts"]):
                 with warnings.catch_warnings():
                     warnings.simplefilter("ignore")
                     _, c3, _ = setupFromFile(fold, allocateSaveMemory=False, layout="v_parallel")
